@@ -131,28 +131,40 @@ class Agg:
         self.harness_errors.extend(d["harness_errors"])
 
 
-def _worker(mod, tier, base, w, nw, n, wfd, per_run_timeout):
+CHUNK = 4
+POISON = 0xFFFFFFFF
+
+
+def _worker(mod, tier, base, w, nw, n, wfd, per_run_timeout, tok_r):
+    import struct
     agg = Agg()
     out = os.fdopen(wfd, "w")
     try:
-        for i in range(n):
-            if ((i * 0x9E3779B1) >> 13) % nw != w:
-                continue
-            seed = seed_for(base, i)
-            faulthandler.dump_traceback_later(per_run_timeout, exit=True)
-            try:
-                plan = mod.gen_plan(seed, tier)
-                res = mod.run_plan(plan)
-            except BaseException as e:  # noqa: BLE001
-                agg.harness_errors.append(
-                    {"seed": seed, "error": repr(e),
-                     "tb": traceback.format_exc()[-2000:]})
-                if len(agg.harness_errors) > 5:
-                    break
-                continue
-            finally:
-                faulthandler.cancel_dump_traceback_later()
-            agg.add(i, seed, plan, res)
+        stop = False
+        while not stop:
+            b = os.read(tok_r, 4)
+            if len(b) < 4:
+                break
+            (c,) = struct.unpack("<I", b)
+            if c == POISON:
+                break
+            for i in range(c * CHUNK, min(n, (c + 1) * CHUNK)):
+                seed = seed_for(base, i)
+                faulthandler.dump_traceback_later(per_run_timeout, exit=True)
+                try:
+                    plan = mod.gen_plan(seed, tier)
+                    res = mod.run_plan(plan)
+                except BaseException as e:  # noqa: BLE001
+                    agg.harness_errors.append(
+                        {"seed": seed, "error": repr(e),
+                         "tb": traceback.format_exc()[-2000:]})
+                    if len(agg.harness_errors) > 5:
+                        stop = True
+                        break
+                    continue
+                finally:
+                    faulthandler.cancel_dump_traceback_later()
+                agg.add(i, seed, plan, res)
         out.write(json.dumps({"done": True, "agg": agg.dump()}) + "\n")
         out.flush()
     finally:
@@ -178,6 +190,12 @@ def run_batch(mod, tier, base, n, nworkers, per_run_timeout=120,
     kids = {}
     sys.stdout.flush()
     sys.stderr.flush()
+    import struct
+    tok_r, tok_w = os.pipe()
+    os.set_blocking(tok_w, False)
+    nchunks = (n + CHUNK - 1) // CHUNK
+    tokens = list(range(nchunks)) + [POISON] * nworkers
+    tpos = 0
     for w in range(nworkers):
         r, wr = os.pipe()
         pid = os.fork()
@@ -185,6 +203,7 @@ def run_batch(mod, tier, base, n, nworkers, per_run_timeout=120,
             code = 0
             try:
                 os.close(r)
+                os.close(tok_w)
                 for fd in [k[0] for k in kids.values()]:
                     os.close(fd)
                 signal.signal(signal.SIGINT, signal.SIG_DFL)
@@ -194,7 +213,8 @@ def run_batch(mod, tier, base, n, nworkers, per_run_timeout=120,
                         os.sched_setaffinity(0, {cpus[w % len(cpus)]})
                     except (AttributeError, OSError):
                         pass
-                _worker(mod, tier, base, w, nworkers, n, wr, per_run_timeout)
+                _worker(mod, tier, base, w, nworkers, n, wr, per_run_timeout,
+                        tok_r)
             except BaseException:  # noqa: BLE001
                 traceback.print_exc()
                 code = 3
@@ -209,11 +229,25 @@ def run_batch(mod, tier, base, n, nworkers, per_run_timeout=120,
     fdmap = {v[0]: pid for pid, v in kids.items()}
     open_fds = set(fdmap)
     done = set()
+    os.close(tok_r)
     while open_fds:
         left = deadline - _now()
         if left <= 0:
             break
-        rl, _, _ = select.select(list(open_fds), [], [], min(left, 5.0))
+        wl = [tok_w] if tpos < len(tokens) else []
+        rl, wl, _ = select.select(list(open_fds), wl, [], min(left, 5.0))
+        if wl:
+            # feed work tokens (dynamic load balancing); 4-byte atomic units
+            try:
+                while tpos < len(tokens):
+                    batch = tokens[tpos:tpos + 256]
+                    os.write(tok_w, b"".join(struct.pack("<I", t)
+                                             for t in batch))
+                    tpos += len(batch)
+            except BlockingIOError:
+                pass
+            except BrokenPipeError:
+                tpos = len(tokens)
         for fd in rl:
             b = os.read(fd, 1 << 20)
             pid = fdmap[fd]
@@ -222,6 +256,10 @@ def run_batch(mod, tier, base, n, nworkers, per_run_timeout=120,
             else:
                 open_fds.discard(fd)
                 os.close(fd)
+    try:
+        os.close(tok_w)
+    except OSError:
+        pass
     for pid, (fd, w, buf) in kids.items():
         if fd in open_fds:
             try:
